@@ -345,3 +345,17 @@ func (p *Prog) FileOf(pos token.Pos) *ast.File {
 	}
 	return nil
 }
+
+// ExtConst looks up a package-level constant in any loaded package.
+func (p *Prog) ExtConst(pkgPath, name string) *types.Const {
+	var found *types.Const
+	packages.Visit(p.Pkgs, func(pk *packages.Package) bool { return found == nil }, func(pk *packages.Package) {
+		if found != nil || pk.PkgPath != pkgPath || pk.Types == nil {
+			return
+		}
+		if o, ok := pk.Types.Scope().Lookup(name).(*types.Const); ok {
+			found = o
+		}
+	})
+	return found
+}
